@@ -534,3 +534,67 @@ Proof.
   intros r p f now GS EX.
   destruct (established_restored c s p f now i r GS EX) as (lg & _ & r' & GL & SC & _). eauto.
 Qed.
+
+(* ---- [completed] only grows ---- *)
+Lemma do_done_core_completed c s t rt x : In x (completed s) -> In x (completed (fst (do_done_core c s t rt))).
+Proof.
+  intros IN. unfold do_done_core. destruct (aget t (pend s)); auto. destruct (aget t (poison s)); [destruct rt; auto|].
+  destruct (effective c s (s_id s0) t); auto. cbn [fst completed]. destruct (s_stamp s0); auto. right; auto.
+Qed.
+
+Lemma fold_done_completed c ts x : forall s, In x (completed s) ->
+  In x (completed (fold_left (fun s0 t => fst (do_done_core c s0 t false)) ts s)).
+Proof. induction ts as [|t ts IH]; intros s IN; cbn [fold_left]; auto. apply IH, do_done_core_completed; auto. Qed.
+
+Lemma restore_one_completed c now f cause store0 s lg k :
+  completed (fst (restore_one c now f cause store0 (s, lg) k)) = completed s.
+Proof.
+  unfold restore_one. destruct (aget k store0) as [r|]; auto. destruct (expired c now r); auto.
+  destruct (match c_proto c with IPoE => s_appr r && negb (s_crea r) | PPPoE => false end); auto.
+  destruct (replayed c r); auto. destruct (match f with Some f0 => f0 =? k | None => false end); auto.
+  destruct (dp_add k (dp (install c s k r)) (dpnext (install c s k r))) as [[sw d1] nx1]. auto.
+Qed.
+
+Lemma do_crash_completed c s p f now : completed (fst (do_crash c s p f now)) = completed s.
+Proof.
+  unfold do_crash.
+  match goal with |- context [fold_left (restore_one c now f ?CA ?ST) ?L (?S0, ?LG)] =>
+    assert (G : forall ks a, completed (fst (fold_left (restore_one c now f CA ST) ks a)) = completed (fst a)) end.
+  { induction ks as [|k ks IH]; intros [s0 lg0]; cbn [fold_left]; auto. rewrite IH. apply restore_one_completed. }
+  destruct (fold_left _ _ _) as [s4 lg] eqn:E. cbn [fst]. change s4 with (fst (s4, lg)). rewrite <- E, G. reflexivity.
+Qed.
+
+Lemma relf_pre_completed c s i x : In x (completed s) -> In x (completed (relf_pre c s i)).
+Proof.
+  intros IN. unfold relf_pre. destruct (c_ordered c); auto. destruct (first_of c s i (pend s)); auto.
+  apply do_done_core_completed; auto.
+Qed.
+
+(* a completed checkpoint stays recorded by every operation, stops included *)
+Lemma completed_mono c s o s' out x : step c s o = Some (s', out) -> In x (completed s) -> In x (completed s').
+Proof.
+  intros H IN. destruct o; cbn [step] in H.
+  - apply do_new_shape in H. destruct H as [->|(r & _ & _ & _ & _ & _ & _ & EC & _)]; auto. rewrite EC. auto.
+  - inversion H. change s' with (fst (s', out)). rewrite <- H1. unfold do_ck. destruct (aget i (live s)); auto.
+  - inversion H. change s' with (fst (s', out)). rewrite <- H1. unfold do_cks. destruct (aget i (live s)); auto. right; auto.
+  - inversion H. change s' with (fst (s', out)). rewrite <- H1. unfold do_rel. destruct (aget i (live s)); auto.
+  - inversion H. change s' with (fst (s', out)). rewrite <- H1. unfold do_done. destruct (aget t (pend s)) as [r|]; [|apply do_done_core_completed; auto].
+    destruct (aget t (poison s)); [|apply do_done_core_completed; auto].
+    apply do_done_core_completed. destruct (c_ordered c); auto. unfold flush. apply fold_done_completed; auto.
+  - inversion H. change s' with (fst (s', out)). rewrite <- H1. unfold do_poison. destruct (aget t (pend s)); auto.
+  - inversion H. change s' with (fst (s', out)). rewrite <- H1. unfold do_cksf. destruct (aget i (live s)); auto. cbn [fst completed].
+    destruct (c_ordered c); auto. unfold flush. apply fold_done_completed; auto.
+  - inversion H. change s' with (fst (s', out)). rewrite <- H1. unfold do_relf. destruct (aget i (live s)); auto. cbn [fst completed].
+    apply (relf_pre_completed c s i x IN).
+  - inversion H. change s' with (fst (s', out)). rewrite <- H1. unfold do_delretry. destruct (aget i (delpend s)) as [[|]|]; auto. destruct ok; auto.
+  - inversion H. change s' with (fst (s', out)). rewrite <- H1. unfold do_giveup. destruct (aget i (delpend s)) as [[|]|]; auto. destruct (c_delforever c); auto.
+  - inversion H; subst; auto.
+  - inversion H. change s' with (fst (s', out)). rewrite <- H1, do_crash_completed. auto.
+  - inversion H. change s' with (fst (s', out)). rewrite <- H1, do_relstop_fst, do_crash_completed.
+    unfold relstop_pre.
+    assert (J : In x (completed (if putdone && c_ordered c then
+                match first_of c s i (pend s) with Some t0 => fst (do_done_core c s t0 false) | None => s end else s))).
+    { destruct (putdone && c_ordered c); auto. destruct (first_of c s i (pend s)); auto.
+      apply do_done_core_completed; auto. }
+    destruct (match aget i (live s) with Some r => negb (s_swif r =? 0) | None => false end); auto.
+Qed.
